@@ -441,9 +441,10 @@ def handleGe (name cmd : String) (args : List String) : IO String := do
   | "open", [kt, n] =>
     match parseKt kt, n.toNat? with
     | some kt, some n =>
-      let img := render kt (Store.init n)
-      put kt n ⟨⟨img.htx, 0⟩, ⟨img.key, 0⟩, ⟨img.val, 0⟩⟩
-      return "ok"
+      -- creation through the generated `open_with_params` path, from three empty files
+      match Gen.openMap kt.sig (.bucketsSize n) ⟨⟨[], 0⟩, ⟨[], 0⟩, ⟨[], 0⟩⟩ with
+      | some (n', d) => if n' == n then put kt n d; return "ok" else return s!"open-size {n'}"
+      | none => return "panic"
     | _, _ => return "bad-op"
   | _, _ =>
     match l.find? (fun e => e.1 == name) with
@@ -482,6 +483,41 @@ def handleGe (name cmd : String) (args : List String) : IO String := do
         match Gen.lenKt d with
         | some (r, d') => put kt n d'; return toString r
         | none => return "panic"
+      | "iter", [] =>
+        -- the generated iterator run to exhaustion (+3 calls), same line format as the model's `iter`
+        match Gen.iterNew d with
+        | none => return "FAIL"
+        | some (st0, d0) =>
+          let rec go (fuel : Nat) (st : Nat × Nat × Nat × Nat) (d : DbSt) (kvs : List (List Nat × List Nat)) (hints : List Nat) :
+              Option (List (List Nat × List Nat) × List Nat × (Nat × Nat × Nat × Nat) × DbSt) :=
+            match fuel with
+            | 0 => none
+            | fuel+1 =>
+              match Gen.iterNext st d with
+              | none => none
+              | some ((none, st'), d') => some (kvs.reverse, (st.1 :: hints).reverse, st', d')
+              | some ((some kv, st'), d') => go fuel st' d' (kv :: kvs) (st.1 :: hints)
+          match go (st0.1 + 2) st0 d0 [] [] with
+          | none => return "FAIL"
+          | some (kvs, hints, stE, dE) =>
+            let after := (List.range 3).foldl (fun (acc : Option ((Nat × Nat × Nat × Nat) × DbSt × Bool)) _ =>
+              match acc with
+              | none => none
+              | some (st, d, ok) => match Gen.iterNext st d with
+                | none => none
+                | some ((r, st'), d') => some (st', d', ok && r.isNone)) (some (stE, dE, true))
+            let fused := match after with | some (_, _, true) => "fused" | _ => "NOTFUSED"
+            match after with
+            | some (_, d', _) => put kt n d'
+            | none => pure ()
+            let items := ",".intercalate (kvs.map fun (k, v) => brepr k ++ "=" ++ brepr v)
+            let hs := ",".intercalate (hints.map toString)
+            return s!"n={kvs.length} items=[{items}] hints=[{hs}] {fused}"
+      | "stats", [] =>
+        let o := fun (x : Option (List (Nat × Nat) × DbSt)) => match x with | some (l, _) => pairs l | none => "FAIL"
+        let fill := match Gen.htxFillingRatePerMill n d with | some ((c, pm), _) => s!"{c}:{pm}" | none => "FAIL"
+        return s!"fk={o (Gen.countOfFreeKeyPiece keyCfg d)} fv={o (Gen.countOfFreeValuePiece valCfg d)} kps={o (Gen.keyPieceSizeStats d)} " ++
+          s!"vps={o (Gen.valuePieceSizeStats d)} kl={o (Gen.keyLengthStats d)} vl={o (Gen.valueLengthStats d)} fill={fill}"
       | "cmp", [dir] =>
         let h ← cmpFile d.htx.bytes s!"{dir}/{name}.htx"
         let k ← cmpFile d.key.bytes s!"{dir}/{name}.key"
